@@ -30,15 +30,29 @@ def run(ctx, kinds):
     nprog, nsteps = (24, 700) if ctx.quick else (240, 2500)
     seeds = [ctx.seed * 1000 + i for i in range(nprog)]
 
-    def drive(seed):
-        out = ctx.path("lsm-%d.ndjson" % seed)
+    jobs = [(sd, None) for sd in seeds]
+    if ctx.pid == "C07":
+        # the same programs with one storage fault inside a table build (flush or compaction output): the retry must not leave
+        # the failed attempt's file behind (checked at the settle point that follows the fault)
+        import random
+        rng = random.Random(ctx.seed)
+        for i in range(8 if ctx.quick else 64):
+            kind = ["sync", "close", "write", "create"][i % 4]
+            jobs.append((ctx.seed * 1000 + 500 + i, "%s:table:%d:1" % (kind, rng.randint(3, 40) * (5 if kind == "write" else 1))))
+
+    def drive(job):
+        seed, fault = job
+        out = ctx.path("lsm-%d%s.ndjson" % (seed, "-" + fault.replace(":", "_") if fault else ""))
         args = [exe, "-mode", "c06", "-seed", str(seed), "-n", str(nsteps), "-nkeys", "20", "-out", out]
+        if fault:
+            args += ["-fault", fault, "-hang", "60"]
         s = run_driver(args, timeout=1800)
         s["path"] = out
         s["cmd"] = " ".join(args)
         return s
 
-    sums = parallel(drive, seeds)
+    sums = parallel(drive, jobs)
+    ctx.extra["programs_with_a_fault_inside_a_table_build"] = sum(1 for s in sums if s.get("injected", 0) > 0)
     comp = {}
     for s in sums:
         for k, v in s.get("comp", {}).items():
